@@ -2,7 +2,10 @@ import BigtoolsModel.SummaryFold
 import BigtoolsModel.BedSummary
 import BigtoolsModel.SweepProof
 import BigtoolsModel.SweepStats
-import BigtoolsModel.AtomsGen
+import BigtoolsModel.AtomsSweep
+import BigtoolsModel.AtomsCut
+import BigtoolsModel.AtomsSF
+import BigtoolsModel.AtomsBSUM
 /-! # C06 — whole-file summary statistics equal the statistics of the written data
 
 Property theorems (statements copied from the lemma modules, proofs by those lemmas). -/
